@@ -96,6 +96,16 @@ func (P *Prog) checkAddShape(r *Result) {
 				return true
 			}
 		}
+		// a map literal that becomes the receiver's map: `s.M = ZogIssueMap{first: {issue}}`
+		if mk, ok := cv(m).(*ssa.MakeMap); ok && mk.Referrers() != nil {
+			for _, rf := range *mk.Referrers() {
+				if st, ok := rf.(*ssa.Store); ok && st.Val == ssa.Value(mk) {
+					if base, f := fieldVar(st.Addr); f != nil && f.Name() == "M" && cvi(base) == recv {
+						return true
+					}
+				}
+			}
+		}
 		return false
 	}
 	spec := &pathSpec{name: "add-shape", inlineAll: true}
